@@ -470,7 +470,11 @@ def main():
     import jaxtyping
 
     eq_trees = ["[1, 1.0]", "[1.0, 1]", "[True, 1]", "[1, True]", "(1, (1.0,))", "{'a': 1, 'b': 1.0}", "[1, None, (), 1.0]", "['s', 's', 1]", "[1, 1, 1]", "[(1, 2), (1.0, 2)]", "[0, False, 0.0]"]
-    eq_types = {"int": (int, lambda v: isinstance(v, int)), "bool": (bool, lambda v: isinstance(v, bool)),  # (not float: the checker follows the numeric tower, float accepts int)
+    eq_trees += ["['s', 1.5]", "[b'x', 's']", "[None, 's']", "[1, 's']", "{'a': 's', 'b': (1.5,)}"]
+    # unions written `X | Y` (PEP 604) come first: PyTree[...] memoises on the (equal) typing.Union spelling
+    eq_types = {"int | str": (int | str, lambda v: isinstance(v, (int, str))), "str | bytes": (str | bytes, lambda v: isinstance(v, (str, bytes))),
+                "str | None": (str | None, lambda v: v is None or isinstance(v, str)), "typing.Optional[str]": (typing.Optional[str], lambda v: v is None or isinstance(v, str)),
+                "int": (int, lambda v: isinstance(v, int)), "bool": (bool, lambda v: isinstance(v, bool)),  # (not float: the checker follows the numeric tower, float accepts int)
                 "typing.Union[int, str]": (typing.Union[int, str], lambda v: isinstance(v, (int, str))),
                 "tuple[int, int]": (tuple[int, int], lambda v: isinstance(v, tuple) and len(v) == 2 and all(isinstance(e, int) for e in v))}
     n_eq = 0
@@ -495,7 +499,8 @@ def main():
                 n_eq += 1
                 tally.case(("equal-leaves", tsrc, lname, nested), nontrivial=True)
                 if got != want:
-                    tally.fail(f"equal-leaves-of-different-types:{lname}:{tsrc}:{'nested' if nested else 'plain'}", "every-leaf-is-checked-even-if-equal-to-an-earlier-one", input={"tree": tsrc, "L": lname, "nested": nested},
+                    tally.fail((f"pep604-union-leaf-type:{lname}:{tsrc}:{'nested' if nested else 'plain'}" if "|" in lname else f"equal-leaves-of-different-types:{lname}:{tsrc}:{'nested' if nested else 'plain'}"),
+                               "every-leaf-is-checked-against-the-leaf-type(unions-in-either-spelling)" if "|" in lname else "every-leaf-is-checked-even-if-equal-to-an-earlier-one", input={"tree": tsrc, "L": lname, "nested": nested},
                                expected=want, actual=got,
                                snippet=f"import typing, jaxtyping\nwith jaxtyping.jaxtyped('context'): print(isinstance({tsrc}, jaxtyping.PyTree[{'jaxtyping.PyTree[' + lname + ']' if nested else lname}]))")
     n_trees = sum(r["n_trees"] for r in results)
